@@ -6,13 +6,14 @@
 // Library-internal interleaving follows the default schedule.
 #define _GNU_SOURCE
 #include "hcommon.h"
+#include <sys/socket.h>
 #include <dispatch/private.h>
 #include <errno.h>
 #include <fcntl.h>
 #include <unistd.h>
 #include <Block.h>
 
-enum { S_READ, S_READ2, S_READ_BARRIER_READ, S_CLOSE_INFLIGHT, S_STOP_INFLIGHT, S_READ_AFTER_CLOSE, S_WRITE, S_FILE_RANDOM, S_FILE_STREAM, S_INTERVAL };
+enum { S_READ, S_READ2, S_READ_BARRIER_READ, S_CLOSE_INFLIGHT, S_STOP_INFLIGHT, S_READ_AFTER_CLOSE, S_WRITE, S_FILE_RANDOM, S_FILE_STREAM, S_INTERVAL, S_SOCK_RESET };
 typedef struct { int kind; const char *name; int n; int chunks[5]; size_t len; size_t hw, lw; } scen;
 #define MAXSC 200
 static scen SC[MAXSC];
@@ -61,6 +62,9 @@ static void build(void)
 	for (int c = 0; c < 4; c++) add(S_READ, "bounded stream read with low water 1", 3, C3[c], 2, INF, 1);
 	for (int c = 0; c < 8; c++) add(S_READ, "bounded stream read with low water 1", 4, C4[c], 3, INF, 1);
 	for (int c = 0; c < 8; c += 3) add(S_READ2, "two reads of 2 bytes back to back, low water 1", 4, C4[c], 2, INF, 1);
+	// a read that ends with a descriptor error after some bytes: AF_UNIX stream socket whose peer closes with unread data
+	for (int c = 0; c < 2; c++) add(S_SOCK_RESET, "stream read on a socket; the peer closes with unread data of its own (ECONNRESET after the bytes)", 3, C3[c], INF, INF, INF);
+	for (int c = 0; c < 2; c++) add(S_SOCK_RESET, "stream read on a socket; the peer closes with unread data of its own (ECONNRESET after the bytes)", 3, C3[c], INF, INF, 1);
 	// stop while bytes are buffered below the (default) low-water mark: they must still reach the handler
 	for (int c = 0; c < 4; c++) add(S_STOP_INFLIGHT, "read SIZE_MAX in flight, then dispatch_io_close(DISPATCH_IO_STOP)", 3, C3[c], INF, INF, INF);
 }
@@ -165,7 +169,10 @@ static void run(int v)
 		lseek(g_ffd, 0, SEEK_SET);
 		fd = g_ffd;
 	} else {
-		if (pipe(g_fd)) vx_fail("pipe");
+		if (g_s->kind == S_SOCK_RESET) {
+			if (socketpair(AF_UNIX, SOCK_STREAM, 0, g_fd)) vx_fail("socketpair");
+			if (vx_real_write(g_fd[0], "x", 1) != 1) vx_fail("socket write");   // never read by the peer: its close resets the connection
+		} else if (pipe(g_fd)) vx_fail("pipe");
 		fcntl(g_fd[0], F_SETFL, O_NONBLOCK); fcntl(g_fd[1], F_SETFL, O_NONBLOCK);
 		if (g_s->kind == S_WRITE) fcntl(g_fd[1], F_SETPIPE_SZ, 4096);
 		fd = g_s->kind == S_WRITE ? g_fd[1] : g_fd[0];
@@ -182,7 +189,7 @@ static void run(int v)
 	int th = isfile ? -1 : vx_thread(peer, NULL);
 	int nops = 1;
 	switch (g_s->kind) {
-	case S_READ: case S_FILE_STREAM: case S_INTERVAL:
+	case S_READ: case S_FILE_STREAM: case S_INTERVAL: case S_SOCK_RESET:
 		vx_ev(EV_SUBMIT, 0, 0); dispatch_io_read(g_ch, 0, g_s->len, g_hq, mkhandler(0)); break;
 	case S_FILE_RANDOM:
 		vx_ev(EV_SUBMIT, 0, 0); dispatch_io_read(g_ch, g_s->len == 3 ? 2 : 4, g_s->len, g_hq, mkhandler(0)); break;
@@ -270,7 +277,7 @@ static int check(int v, const vx_log *l, char *msg, size_t len)
 		if (nc != ncons) FAILF(msg, len, "after DISPATCH_IO_STOP the handlers were given %zu bytes but the library had consumed %zu bytes from the descriptor", nc, ncons);
 	}
 	for (int i = 0; i < nops; i++) {
-		size_t req = (s->kind == S_READ || s->kind == S_FILE_STREAM || s->kind == S_INTERVAL) ? s->len : (s->kind == S_READ_AFTER_CLOSE ? 3 : (i == 0 && (s->kind == S_CLOSE_INFLIGHT || s->kind == S_STOP_INFLIGHT)) ? INF : (s->kind == S_CLOSE_INFLIGHT || s->kind == S_STOP_INFLIGHT) ? 1 : 2);
+		size_t req = (s->kind == S_READ || s->kind == S_FILE_STREAM || s->kind == S_INTERVAL || s->kind == S_SOCK_RESET) ? s->len : (s->kind == S_READ_AFTER_CLOSE ? 3 : (i == 0 && (s->kind == S_CLOSE_INFLIGHT || s->kind == S_STOP_INFLIGHT)) ? INF : (s->kind == S_CLOSE_INFLIGHT || s->kind == S_STOP_INFLIGHT) ? 1 : 2);
 		if (req != INF && g_op[i].n > req) FAILF(msg, len, "operation %d delivered %zu bytes, more than the %zu requested", i, g_op[i].n, req);
 	}
 	const char *src = isfile ? "abcdef" : (const char *)g_payload;
@@ -279,6 +286,10 @@ static int check(int v, const vx_log *l, char *msg, size_t len)
 		size_t total = (size_t)s->n, want = s->len == INF || s->len > total ? total : s->len;
 		if (g_op[0].err == 0 && g_op[0].n != want) FAILF(msg, len, "read finished without error with %zu bytes; %zu were available and %zu requested", g_op[0].n, total, s->len);
 		if (g_op[0].err) FAILF(msg, len, "read finished with error %d", g_op[0].err);
+	}
+	if (s->kind == S_SOCK_RESET) {
+		if (g_op[0].err != ECONNRESET && g_op[0].err != 0) FAILF(msg, len, "read on the reset socket finished with error %d", g_op[0].err);
+		if (g_op[0].err == 0 && g_op[0].n != (size_t)s->n) FAILF(msg, len, "read on the reset socket finished without error with %zu of %d bytes", g_op[0].n, s->n);
 	}
 	if (s->kind == S_READ2 || s->kind == S_READ_BARRIER_READ) {
 		if (g_op[0].n != 2 || g_op[1].n != 2 || g_op[0].err || g_op[1].err) FAILF(msg, len, "the two reads delivered %zu and %zu bytes (errors %d, %d)", g_op[0].n, g_op[1].n, g_op[0].err, g_op[1].err);
